@@ -91,7 +91,30 @@ func effKey(w *World, e *EntitySpec) string {
 }
 
 type c11Oracle struct {
-	built map[string]string // entity id -> effKey at the time gopki last wrote its artifact
+	built       map[string]string // entity id -> effKey at the time gopki last wrote its artifact
+	builtNoVal  map[string]string // the same without the validity blocks
+	builtStatic map[string]bool   // effective validity had an explicit from at that time
+}
+
+// effKeyNoVal is effKey with the validity blocks of entity and profile left out.
+func effKeyNoVal(w *World, e *EntitySpec) string {
+	c := e.Clone()
+	c.Validity = nil
+	save := map[string]*ValSpec{}
+	for f, p := range w.Profs {
+		save[f] = p.Validity
+		p.Validity = nil
+	}
+	k := effKey(w, c)
+	for f, p := range w.Profs {
+		p.Validity = save[f]
+	}
+	return k
+}
+
+func validityStatic(w *World, e *EntitySpec) bool {
+	v := validitySpecOf(w, e)
+	return v != nil && v.From != ""
 }
 
 func (o *c11Oracle) AfterOp(w *World, op *Op) {}
@@ -188,10 +211,15 @@ func (o *c11Oracle) state(w *World, e *EntitySpec, res *RunResult) entState {
 		case err != nil || !a.Pem.HashAtTop:
 			st.hashState, st.changed = "undecodable", triX
 		case len(hb) == 20 && known && w.State["tampered:"+e.ID] == nil:
-			if built == effKey(w, e) {
+			switch {
+			case built == effKey(w, e):
 				st.hashState, st.changed = "equal", triF
-			} else {
+			case o.builtNoVal[e.ID] != effKeyNoVal(w, e) || o.builtStatic[e.ID] || validityStatic(w, e):
 				st.hashState, st.changed = "different", triT
+			default:
+				// only a validity without `from` differs: whether the stored hash sees that is C13's
+				// business (known finding there); C11 does not care
+				st.hashState, st.changed = "validity-only-nonstatic", triX
 			}
 		case w.State["tampered:"+e.ID] != nil:
 			st.hashState, st.changed = "different", triT
@@ -258,7 +286,7 @@ func (o *c11Oracle) state(w *World, e *EntitySpec, res *RunResult) entState {
 
 func (o *c11Oracle) noteWrites(w *World, res *RunResult) {
 	if o.built == nil {
-		o.built = map[string]string{}
+		o.built, o.builtNoVal, o.builtStatic = map[string]string{}, map[string]string{}, map[string]bool{}
 	}
 	for _, wr := range res.Writes {
 		if wr.Outcome != "ok" {
@@ -267,6 +295,8 @@ func (o *c11Oracle) noteWrites(w *World, res *RunResult) {
 		for _, e := range w.Entities() {
 			if e.PemPath() == wr.Path {
 				o.built[e.ID] = effKey(w, e)
+				o.builtNoVal[e.ID] = effKeyNoVal(w, e)
+				o.builtStatic[e.ID] = validityStatic(w, e)
 				delete(w.State, "tampered:"+e.ID)
 			}
 		}
@@ -436,6 +466,26 @@ func genC11BaseMode(r *Rng, farFuture bool) (*Plan, *HistGen) {
 	if expiryWorld {
 		g.P.Add(Op{K: "clock", N: int64(r.Range(8, 40)) * 86400})
 		g.P.Meta["expiry-world"] = "1"
+		// the configured end moves although the certificate stays the same: later but still in the
+		// past, or into the future
+		for _, e := range g.Ents {
+			if e.Validity == nil || !r.Chance(1, 2) {
+				continue
+			}
+			ne := e.Clone()
+			switch {
+			case e.Validity.Until != "" && e.Validity.From == "":
+				ne.Validity.Until = Pick(r, []string{dateStr(start.AddDate(0, 0, 6)), dateStr(start.AddDate(0, 0, 7)), "2150-03-04", dateStr(start.AddDate(0, 0, 2))})
+			case e.Validity.From == "1990-03-15":
+				ne.Validity.Duration = Pick(r, []string{"4y", "3y6m", "2y", "200y"})
+			case e.Validity.Duration == "2d":
+				ne.Validity.Duration = Pick(r, []string{"3d", "1d", "20y"})
+			default:
+				continue
+			}
+			g.setEnt(ne)
+			g.P.Add(Op{K: "put-ent", Spec: ne, Label: "edit-validity"})
+		}
 	}
 	// per-entity state operations
 	kinds := []string{"strip-key", "strip-cert", "key-to-csr", "del-art", "strip-hash", "tamper-hash", "bad-hash",
